@@ -242,7 +242,7 @@ func TestC07Exhaustive(t *testing.T) {
 	ev.Extra("exhaustive_shapes", strconv.Itoa(len(exhShapeList)))
 	if !vlib.Thorough() {
 		// quick: a sample of the scope
-		vlib.Check(t, 60, 1, func(rt *rapid.T) {
+		vlib.Check(t, 150, 1, func(rt *rapid.T) {
 			c := ExhCase{Index: uni(rt, exhIndexes, "index")}
 			var st exhStats
 			f := propExhaustive(c, &st)
